@@ -187,6 +187,11 @@ class Gen:
                 except ValueError:
                     pass
         x = r.random()
+        if cands and x < self.p.get("p_hd_operand", 0.0):
+            # the ndarray of a live tensor (`t.data`) as a plain operand: a constant sharing the tensor's memory
+            fl = [h for h in cands if self.arr(h).dtype.kind == "f"]
+            if fl:
+                return {"hd": r.choice(fl)}
         if cands and x < 0.55:
             return {"h": r.choice(cands)}
         if x < 0.7:
@@ -439,10 +444,16 @@ class Gen:
                     ops, subs, out = [{"h": a}, b], [[0, 1], [1, 2]], ([0, 2] if pat.endswith("ik") else [2, 0])
                 elif pat in ("ij,ij->", "ij,ij->i"):
                     c = [q for q in self.live() if self.arr(q).shape == A.shape]
-                    b = {"h": r.choice(c)}
+                    x2 = r.random()
+                    if x2 < 0.2:
+                        b = {"h": self.leaf([1, n])}
+                    elif x2 < 0.35 and A.dtype.kind == "f":
+                        b = {"hd": a}                                         # x together with x.data
+                    else:
+                        b = {"h": r.choice(c)}
                     ops, subs, out = [{"h": a}, b], [[0, 1], [0, 1]], ([] if pat.endswith("->") else [0])
                 elif pat == "ij,j->i":
-                    b = {"h": self.leaf([n])}
+                    b = {"h": self.leaf([n if r.random() < 0.7 else 1])}      # (a length-1 axis broadcasts)
                     ops, subs, out = [{"h": a}, b], [[0, 1], [1]], [0]
                 elif pat == "ij,ij->j(self)":
                     ops, subs, out = [{"h": a}, {"h": a}], [[0, 1], [0, 1]], [1]
@@ -747,6 +758,8 @@ class Gen:
             s["seed"] = seed
             if kind:
                 s["seed_kind"] = kind
+            if "arr" in seed and len(seed["arr"]["sh"]) >= 2 and kind is None and self.rng.random() < 0.35:
+                s["seed_order"] = "F"      # the caller's gradient array is Fortran-ordered (the specification does not care)
         self.prog.append(s)
 
     def rand_seed(self, sh, bad=False):
@@ -1035,12 +1048,12 @@ def gen_program(seed: int, profile: dict) -> list[dict]:
 
 PROFILES = {
     "c01": dict(functional=["bin", "bin", "un", "power", "red", "red", "matmul", "where", "join", "gathercopy",
-                            "act", "cum", "seq", "einsum", "conv", "pool", "loss"],
+                            "act", "cum", "seq", "einsum", "conv", "pool", "loss"], p_hd_operand=0.06,
                 w_func=0.75, w_view=0.25, w_inplace=0.0, max_leaves=3, max_steps=8, p_const_leaf=0.2, p_forder_leaf=0.2),
     # C02: short programs (one to three operations) ended by backward with a non-trivial seed: every operation's VJP on
     # random shapes / broadcasts / options, beyond the fixed cells of OpTable.tla
     "c02": dict(functional=["bin", "bin", "un", "power", "red", "red", "matmul", "where", "join", "gathercopy",
-                            "act", "cum", "seq", "einsum", "einsum", "conv", "pool", "loss"],
+                            "act", "cum", "seq", "einsum", "einsum", "conv", "pool", "loss"], p_hd_operand=0.06,
                 w_func=0.8, w_view=0.2, w_inplace=0.0, max_leaves=3, max_steps=3, p_const_leaf=0.15, p_seed=0.8,
                 p_nonscalar_L=0.9, p_forder_leaf=0.15),
     "c04": dict(p_forder_leaf=0.25, functional=["bin", "un", "red"], w_func=0.25, w_view=0.4, w_inplace=0.35, max_leaves=2,
@@ -1053,11 +1066,12 @@ PROFILES = {
     "c09": dict(functional=["bin", "bin", "un", "red", "matmul"], w_func=0.5, w_view=0.25, w_inplace=0.25, max_leaves=2,
                 max_steps=5, max_epochs=2, max_terminals=3, between_steps=3, p_const_leaf=0.15, w_misc=0.1,
                 misc=["clear", "nullgrad"], p_clear_instead=0.2, inplace=["setitem", "setitem", "aug", "uout", "setshape"]),
-    "c10": dict(functional=["bin", "bin", "un", "power", "red", "matmul", "where", "join", "gathercopy"], w_func=0.55,
+    "c10": dict(functional=["bin", "bin", "un", "power", "red", "matmul", "where", "join", "gathercopy", "einsum", "seq", "act"],
+                p_hd_operand=0.12, w_func=0.55,
                 w_view=0.25, w_inplace=0.2, max_leaves=3, max_steps=8, p_const_leaf=0.4, p_kw_const=0.3, p_int_leaf=0.2,
                 p_kw_const_out=0.3, p_kw_const_view=0.05),
     "c12": dict(functional=["bin", "bin", "un", "power", "red", "matmul", "where", "join", "gathercopy",
-                            "act", "cum", "seq", "einsum", "conv", "pool", "loss"], w_func=0.6,
+                            "act", "cum", "seq", "einsum", "conv", "pool", "loss"], w_func=0.6, p_forder_leaf=0.2,
                 w_view=0.25, w_inplace=0.15, max_leaves=3, max_steps=7, p_const_leaf=0.15, max_epochs=2, p_seed=0.5,
                 p_nonscalar_L=0.5, editgrad=True, w_misc=0.1, misc=["copy"]),
     "c13": dict(functional=["bin", "bin", "un", "red", "matmul", "gathercopy"], w_func=0.4, w_view=0.25, w_inplace=0.2,
